@@ -54,10 +54,11 @@ Theorem C10_awaiters_resumed : forall c initial evs, gc c ->
 Proof. exact awaiters_resumed. Qed.
 Print Assumptions C10_awaiters_resumed.
 
-(** … because turning loading off invokes the waker of every parked awaiter *)
-Theorem C10_parked_awaiters_woken : forall s a w,
-  In a (wakers s) -> nth_error (awaiters s) a = Some (APending w) ->
-  exists w', nth_error (awaiters (notify_subs s)) a = Some (APending w') /\ (w < w')%nat.
+(** … because turning loading off invokes the latest waker of every parked awaiter (an awaiter
+    re-polled with a fresh waker is parked again under the new one) *)
+Theorem C10_parked_awaiters_woken : forall s a g w,
+  In (a, g) (wakers s) -> nth_error (awaiters s) a = Some (APending g w) ->
+  exists w', nth_error (awaiters (notify_subs s)) a = Some (APending g w') /\ (w < w')%nat.
 Proof. exact parked_awaiters_woken. Qed.
 Print Assumptions C10_parked_awaiters_woken.
 
@@ -85,3 +86,27 @@ Theorem C10_dependents_notified_each_transition : forall s,
   loading (notify_subs s) = false.
 Proof. exact dependents_notified_each_transition. Qed.
 Print Assumptions C10_dependents_notified_each_transition.
+
+(** Suspense: an await under a boundary registers it with the node on every poll — also when the
+    value is already resolved … *)
+Theorem C10_suspense_registers : forall c s a g w,
+  once c = false -> nth_error (awaiters s) a = Some (APending g w) -> nth a (aw_sus s) false = true ->
+  susp_reg (poll_awaiter c a s) = S (susp_reg s).
+Proof. exact suspense_registers. Qed.
+Print Assumptions C10_suspense_registers.
+
+(** … the start of the next load gives every registered boundary a pending task … *)
+Theorem C10_suspense_told_of_load : forall fid s a b,
+  let s' := set_task (TFetch fid (S (version s)))
+              (set_version (S (version s)) (set_loading true (set_first_run false
+                 (set_susp_held a (set_susp_reg b s))))) in
+  susp_held s' = a /\ susp_reg s' = b.
+Proof. exact suspense_told_of_load. Qed.
+Print Assumptions C10_suspense_told_of_load.
+
+(** … and none is left pending at a quiescent point *)
+Theorem C10_suspense_released : forall c initial evs, gc c ->
+  let s := run c initial evs in
+  quiescent s -> susp_held s = 0%nat.
+Proof. exact suspense_released. Qed.
+Print Assumptions C10_suspense_released.
